@@ -334,12 +334,22 @@ def illformed_shapes(tier: str = "quick") -> List[Shape]:
     S: List[Shape] = []
     side = {"g1": []}     # a well-formed side pipeline that populates the store (root 2)
 
-    def mk(name, root, stmts, tags, dpath=None, real=None):
+    def mk(name, root, stmts, tags, dpath=None, real=None, root_path="/zz/root_out"):
         st = dict(stmts)
         st.update(side)
         dp = dict(dpath or {})
         dp["g1"] = "/side/g1"
-        S.append(Shape(name, root, st, dpath=dp, root2="g1", tags=tags, real=real, root_path="/zz/root_out"))
+        S.append(Shape(name, root, st, dpath=dp, root2="g1", tags=tags, real=real, root_path=root_path))
+
+    # --- the path of the outermost dds.keep(path, f) against the paths kept below f (the same functions
+    # entered through dds.eval(f) are well formed: the root path plays no part then)
+    for (k, (rootp, inner, placement)) in enumerate([("/f", "/f/g", "body"), ("/a/b/c", "/a/b", "nested"),
+                                                     ("/m", "/m.bak", "body"), ("/a/b", "/a/b/c/d", "nested")]):
+        funs = {"f1": [call("h1")] if placement == "nested" else [keep(inner, "k1")], "k1": []}
+        if placement == "nested":
+            funs["h1"] = [keep(inner, "k1")]
+        mk("ovroot_%d" % k, "f1", funs, ["overlap-with-root-path" if rootp != "/m" else "neighbour", "placement:" + placement],
+           root_path=rootp)
 
     # --- overlapping paths: path sets x orders x placements
     sets = [(["/f", "/f/g"], True), (["/f", "/h", "/f/g"], True), (["/a/b", "/c", "/a"], True),
